@@ -114,10 +114,20 @@ def confirm_accessors(check, r):
         scs.append({"steps": [{"op": "suggestion_new", "aux": "xy", "items": [[0, "হাই", 0], [3, "c", 2]], "sel": 1, "ansi": ansi},
                               {"op": "suggestion_new", "single": "হাই", "ansi": ansi},
                               {"op": "suggestion_new", "empty": True},
-                              {"op": "bijoy", "text": "হাই"}, {"op": "bijoy", "text": "c"}]})
+                              {"op": "bijoy", "text": "হাই"}, {"op": "bijoy", "text": "c"},
+                              {"op": "suggestion_new", "aux": "..", "items": [[0, "।", 0], [3, "(।)", 2], [2, "১২", 10], [2, "ab", 10]], "sel": 0, "ansi": ansi},
+                              {"op": "bijoy", "text": "।"}, {"op": "bijoy", "text": "(।)"}, {"op": "bijoy", "text": "১২"}, {"op": "bijoy", "text": "ab"},
+                              {"op": "suggestion_new", "single": "।", "ansi": ansi}]})
     out = run_replay(scs)
     for sc, o, ansi in zip(scs, out, (False, True)):
-        full, single, empty, b0, b1 = o["results"]
+        full, single, empty, b0, b1, full2, c0, c1, c2, c3, single2 = o["results"]
+        if "panic" in full2 or "panic" in single2:
+            return dict(key="suggestion accessor panics", what="accessor panics", replay=dict(scenario=sc, observed=o))
+        f2 = full2["suggestion"]
+        want2 = [c0["text"], c1["text"], c2["text"], c3["text"]] if ansi else f2["list"]
+        if f2["preedit"] != want2 or single2["suggestion"]["preedit0"] != (c0["text"] if ansi else "।"):
+            return dict(key="suggestion read-out", what="pre-edit text of %s under ansi=%s is %s, the encoder gives %s" % (f2["list"], ansi, f2["preedit"], want2),
+                        replay=dict(scenario=sc, observed=[full2, single2]))
         if "panic" in full or "panic" in single or "panic" in empty:
             return dict(key="suggestion accessor panics", what="accessor panics", replay=dict(scenario=sc, observed=o))
         f = full["suggestion"]
